@@ -601,6 +601,9 @@ func effectRows(c *Ctx, fn *ssa.Function) []siteRow {
 				if isLoggingCall(n) {
 					return // diagnostics have no protocol effect: adding or rewording a log line is not a deviation
 				}
+				if _, isCall := i.(*ssa.Call); isCall && isPureStdValueCall(n) {
+					return // computes a value from its arguments and nothing else: the value is rendered where it is used
+				}
 				if _, isCall := i.(*ssa.Call); isCall {
 					if g := staticCallee(cc); g != nil && observerPure(c, g, 0) {
 						return // a side-effect-free accessor: its value appears in the conditions and arguments that use it
@@ -788,4 +791,25 @@ func branchesOnFlag(p *ssa.BasicBlock) bool {
 		return true
 	}
 	return isThreaded(p)
+}
+
+
+// isPureStdValueCall: a standard-library function that only computes a value from its arguments (no state, no I/O, no
+// writes through its arguments). Such a call is not an effect of the function that makes it; which spelling of a
+// conversion or comparison is used (`binary.BigEndian.AppendUint16` or two appended bytes, `strings.EqualFold` …)
+// shows in the rendered value, not as a row.
+func isPureStdValueCall(n string) bool {
+	for _, p := range []string{
+		"(encoding/binary.bigEndian).Uint", "(encoding/binary.bigEndian).AppendUint",
+		"(encoding/binary.littleEndian).Uint", "(encoding/binary.littleEndian).AppendUint",
+		"strings.", "strconv.", "unicode.", "unicode/utf8.", "math.", "math/bits.", "slices.Contains", "slices.Index", "slices.Equal",
+		"bytes.Equal", "bytes.HasPrefix", "bytes.HasSuffix", "bytes.Index", "bytes.Contains", "bytes.Trim", "bytes.ToLower", "bytes.ToUpper", "bytes.Compare",
+		"fmt.Sprintf", "fmt.Sprint", "fmt.Sprintln", "fmt.Errorf", "errors.New", "errors.Is", "errors.Unwrap",
+		"net/http.CanonicalHeaderKey", "net/textproto.CanonicalMIMEHeaderKey", "net/textproto.TrimString",
+	} {
+		if strings.HasPrefix(n, p) {
+			return true
+		}
+	}
+	return false
 }
